@@ -206,7 +206,10 @@ func (fc *FnCtx) inline(fr *Frame, st *State, reach string, callee *ssa.Function
 	fc.inlined[shortFn(callee)] = true
 	saved := fc.activeLoops
 	savedPos := fc.curPos
-	v, _ := fc.execBody(nf, st, reach)
+	v, rr := fc.execBody(nf, st, reach)
+	// partial correctness: execution continues in the caller only if the callee returned
+	// (paths cut at loop back edges or ending in a panic obligation do not leak into the caller)
+	fc.sc.assume(tImp(reach, rr))
 	fc.activeLoops = saved
 	fc.curPos = savedPos
 	fc.stack = fc.stack[:len(fc.stack)-1]
@@ -409,6 +412,22 @@ func (fc *FnCtx) execDefer(fr *Frame, st *State, reach string, d *ssa.Defer) {
 			if fv.K == KFunc && fv.Fn != nil {
 				callee, binds = fv.Fn, fv.Bind
 			} else {
+				if fv.Orig != "" {
+					if con := fc.eng.contracts["funcfield:"+fv.Orig]; con != nil {
+						fc.callByContractIface(fr, st, reach, con, fv, args, d)
+						return
+					}
+				}
+				if n, ok := types.Unalias(com.Value.Type()).(*types.Named); ok && n.Obj().Pkg() != nil {
+					if con := fc.eng.contracts["functype:"+n.Obj().Pkg().Path()+"."+n.Obj().Name()]; con != nil {
+						fc.callByContractIface(fr, st, reach, con, fv, args, d)
+						return
+					}
+					if !strings.HasPrefix(n.Obj().Pkg().Path(), repoMod) {
+						fc.unknownCall(fr, st, reach, "deferred func value of external type "+n.Obj().Name(), com.Signature().Results(), args, false)
+						return
+					}
+				}
 				fc.unknownCall(fr, st, reach, "deferred func value", com.Signature().Results(), args, true)
 				return
 			}
